@@ -62,6 +62,15 @@ def bignumExact (op : String) (x y z : Nat) : Option (Nat × Bool) :=
   | "uint_from_uint128" | "uint_from_u64" | "dec_from_std" => some (x, false)
   | _ => none
 
+/-- does the exact result exist (no zero divisor, no negative difference) and fit the result type? -/
+def bignumMustAbort (op : String) (x y z exact : Nat) : Bool :=
+  match op with
+  | "dec_sub" | "uint_sub" => decide (x < y)
+  | "dec_div" | "dec_from_ratio" | "uint_div_dec" => decide (y = 0) || decide (U ≤ exact)
+  | "uint_mul_ratio" => decide (z = 0) || decide (U ≤ exact)
+  | "uint_to_u128" | "uint_to_uint128" | "dec_to_std" => decide (W ≤ exact)
+  | _ => decide (U ≤ exact)
+
 def bignumOracle (op : String) (a : List String) (impl : String) : List (String × String) :=
   let x := nat! (a.getD 0 "0")
   let y := nat! (a.getD 1 "0")
@@ -71,10 +80,12 @@ def bignumOracle (op : String) (a : List String) (impl : String) : List (String 
   | some (exact, mayAbort) =>
     match okVals impl with
     | some (r :: _) =>
-      if mayAbort then
-        [("C08", "returned a value where it had to abort: the exact result does not exist or an operand product / the result exceeds 256 bits")]
+      -- a returned value must be the exact result; where no exact result exists or it does not fit, only an abort is
+      -- right (an overflowing *intermediate* product permits an abort but does not demand one)
+      if bignumMustAbort op x y z exact then
+        [("C08", "returned a value where it had to abort: the exact result does not exist or does not fit the result type")]
       else if r != exact then [("C08", s!"returned {r}, exact result is {exact}")] else []
-    | _ => if mayAbort then [] else [("C08", "aborted although the exact result exists and fits")]
+    | _ => if mayAbort then [] else [("C08", "aborted although the exact result exists and no operand product or result exceeds 256 bits")]
 
 def fnLine (family : String) (a : List String) (impl : String) : Verdict :=
   let g (i : Nat) : Nat := nat! (a.getD i "0")
@@ -108,7 +119,10 @@ def fnLine (family : String) (a : List String) (impl : String) : Verdict :=
     let model := res3 (computeOfferAmount x y b c)
     let dom := decide (c < E) && decide (b * E < y * (E - c))
     let oracle := match okVals impl with
-      | some [o, _, _] => if dom then chk "C12" "reverse quote above closed form" (Spec.c12Reverse x y b c o) else []
+      | some [o, _, _] =>
+        if dom then chk "C12" "reverse quote above closed form" (Spec.c12Reverse x y b c o) ++
+                    chk "C12" "reverse quote below the closed form by more than its rounding bound" (Spec.c12ReverseLower x y b c o)
+        else []
       | _ => []
     mk false model impl oracle (if dom then ["domain"] else ["off-domain"])
   | "lp_share" =>
@@ -165,8 +179,8 @@ def fnLine (family : String) (a : List String) (impl : String) : Verdict :=
     let funds := coinList (a.getD 3 "-")
     let model := if native then resU (assertSentNative denom amount funds) else "ok"
     let oracle := if native then
-        chk "C09" "accepted iff attached = declared" ((impl == "ok") == Spec.c09 denom amount funds)
-      else chk "C09" "token assets are never checked against funds" (impl == "ok")
+        chk "C09" "accepted although the attached amount differs from the declared one" (impl != "ok" || Spec.c09 denom amount funds)
+      else []
     mk false model impl oracle
   | "bignum" =>
     let op := a.getD 0 ""
